@@ -195,7 +195,7 @@ def judge(scheds: list[dict], results: list[dict], rep: core.Report, tag: str) -
     # TLC validates the traces in batches, a few batches side by side
     from concurrent.futures import ThreadPoolExecutor
 
-    size = 1500
+    size = min(1500, max(250, -(-len(traces) // 4)))
     parts = [traces[i:i + size] for i in range(0, len(traces), size)]
     with ThreadPoolExecutor(max_workers=4) as ex:
         got = list(ex.map(lambda jp: tlc.validate_traces("T_Tls", jp[1], tag=f"{tag}-{jp[0]}", chunk=size),
